@@ -52,6 +52,14 @@ Theorem C08_lru_recent_key_returns_latest_value :
 Proof. exact lru_recent_reads_latest. Qed.
 Print Assumptions C08_lru_recent_key_returns_latest_value.
 
+(* a read (hit or miss) reorders the table and changes no answer *)
+Theorem C08_lru_get_changes_no_answer :
+  forall (K V : Type) (eqb : K -> K -> bool), (forall a b, reflect (a = b) (eqb a b)) ->
+  forall (cap : nat) (t : list (K * V)) (k x : K),
+  lookup K V eqb (step K V eqb cap t (Get K V k)) x = lookup K V eqb t x.
+Proof. exact get_changes_no_answer. Qed.
+Print Assumptions C08_lru_get_changes_no_answer.
+
 (* non-vacuity: bound 2; key 1 is overwritten and touched, key 2 is evicted by key 3: the table answers 11 for key 1
    (the later value), nothing for key 2, 30 for key 3 – and the specification agrees wherever the table answers *)
 Example C08_example_latest_value :
